@@ -43,7 +43,7 @@ CHECKS = {
          "Held on the executions explored: pause injected at unit boundaries of generated runs (root or nested execution), everything in flight drained while PAUSED, resume, drain; monitors: no task row inserted while the execution is and stays PAUSED, acknowledged pause => PAUSED (with sub-workflows), normal form equal to the never-paused run on the deterministic fragment. Also the workflow pausing itself: a pause command at every position of a transition list (in front of tasks and joins of the same list) or a pause-before policy, compared with the run of the program without it; programs with with-items tasks.",
          "runtime monitoring: no-insert-while-paused trace monitor + metamorphic equality with the unpaused run under pause injection at every unit boundary"),
  'C11': ('exploration',
-         "Held on the executions explored: stop(SUCCESS/ERROR/CANCELLED, msg) injected at unit boundaries on the root or a nested execution; monitors: requested final state/message/output.result held to the end, no task inserted after the stop, every unfinished descendant of a cancelled execution CANCELLED with its parent task, each finished sub-workflow reported to its parent exactly once, late results change nothing. Also cancel of a tree that was paused from above; programs with with-items tasks.",
+         "Held on the executions explored: stop(SUCCESS/ERROR/CANCELLED, msg) injected at unit boundaries on the root or a nested execution; monitors: requested final state/message/output.result held to the end, no task inserted after the stop, every unfinished descendant of a cancelled execution CANCELLED with its parent task, each finished sub-workflow reported to its parent exactly once, late results change nothing. Also cancel of a tree that was paused from above; programs with with-items tasks; a task failed by its timeout while its sub-workflow runs on; a stop that loses its compare-and-swap to another process's stop (injected) must not overwrite state, message or output.",
          "runtime monitoring: finality / no-insert-after-stop / tree-consistency monitors over recorded row history and RPC sends under stop injection at every unit boundary"),
  'C12': ('exploration',
          "Held on the histories explored: generated workflows (plain, join, with-items with/without concurrency, retry, sub-workflows) run to ERROR, then rerun (reset on/off) or skip of a failed task with a new outcome, drained, repeated up to 3 times; oracle: workflow, enclosing workflows and parent tasks RUNNING right after the request and the task leaves ERROR first, normal form at quiescence equal to a fresh run with the new outcomes from the start (engine vs engine), with-items reruns exactly the failed items (reset off) or all items once (reset on), skip => SKIPPED with its on-skip / on-success successors, requests for tasks not in ERROR refused. Also rerun after a handled failure (on-error handler ending in the fail command or failing itself; new attempt possibly without successors) judged by the universal monitors.",
